@@ -101,6 +101,28 @@ package server
 // C04: the Age handed to the responder on a hit is the one computed by the lookup itself (same clock reading as the expiry check)
 //@   ensures_local    [hit-age]   cacheStatus == cache.StatusHit && err == nil ==> c.has[box("_httpRespAge")] && c.kv[box("_httpRespAge")] == box(age)
 
+// the server options built from the configuration: the names a server resolves at request time
+// (locations, cache, compress profile) and its address are copied exactly as configured
+//@ func convertConfig(configs []config.ServerConfig) (opts []ServerOption)
+//@   nopanic
+//@   modifies nothing
+//@   ensures [len] len(opts) == len(configs)
+//@   ensures [fields] forall i int :: 0 <= i && i < len(configs) ==> opts[i].Addr == configs[i].Addr && opts[i].Cache == configs[i].Cache && opts[i].Compress == configs[i].Compress
+//@                      && opts[i].LogFormat == configs[i].LogFormat && opts[i].Locations == configs[i].Locations
+//@                      && (configs[i].CompressContentTypeFilter == "" ==> opts[i].CompressContentTypeFilter == nil)
+//@   loop 0: modifies nothing
+//@   loop 0: invariant [idx] -1 <= $idx && $idx < len(configs) && len(opts) == $idx + 1 && fresh(opts)
+//@   loop 0: invariant [fields] forall i int :: 0 <= i && i <= $idx ==> opts[i].Addr == configs[i].Addr && opts[i].Cache == configs[i].Cache && opts[i].Compress == configs[i].Compress
+//@                      && opts[i].LogFormat == configs[i].LogFormat && opts[i].Locations == configs[i].Locations
+//@                      && (configs[i].CompressContentTypeFilter == "" ==> opts[i].CompressContentTypeFilter == nil)
+
+// applying the server section of a configuration: exactly the configured addresses are registered afterwards
+//@ axiom [default-servers]: defaultServers != nil && defaultServers.m != nil
+//@ func Reset(configs []config.ServerConfig)
+//@   requires [nolocks] nolocks()
+//@   modifies defaultServers.m.dom, defaultServers.m.vals, server::locations, server::cache, server::compress, server::compressMinLength, server::compressContentTypeFilter, server::listening, server::listenAddr, server::ln, server::e
+//@   ensures [exact] forall k any :: typeis(k, "string") ==> (defaultServers.m.dom[k] <==> (exists i int :: 0 <= i && i < len(configs) && configs[i].Addr == unbox(k, "string")))
+
 // ---- which responses may be stored (proxy.go) ------------------------------------------
 
 //@ axiom [server-regexps]: noCacheReg != nil && sMaxAgeReg != nil && maxAgeReg != nil && numSubexp(sMaxAgeReg) == 1 && numSubexp(maxAgeReg) == 1
